@@ -307,7 +307,8 @@ def gen():
     # SAMPLING_TIMEOUT and is the first action of a loop whose condition re-reads the stop flag
     node_code = node.split("#[cfg(test)]")[0]
     nlines = [l for l in node_code.split("\n") if l.strip() and not l.strip().startswith("#[cfg(message_io_verif)]") and "crate::verif::" not in l]
-    waits = [i for i, l in enumerate(nlines) if "process_poll_event(" in l or re.search(r"signal_receiver\s*\.\s*receive", l)]
+    # (ANY call on the processor or on the signal receiver inside node.rs counts as a wait)
+    waits = [i for i, l in enumerate(nlines) if re.search(r"network_processor\s*\.\s*\w+\(", l) or re.search(r"signal_receiver\s*\.\s*\w+\(", l)]
     bounded = bool(waits) and all(("process_poll_event(Some(*SAMPLING_TIMEOUT)" in nlines[i]) or ("receive_timeout(*SAMPLING_TIMEOUT)" in nlines[i]) for i in waits)
     heads = bool(waits) and all(re.search(r"while\s+(self\.)?handler\.is_running\(\)\s*\{|while\s+cache_running\.load\(", nlines[i - 1]) for i in waits)
     defB("NODE_WAITS_BOUNDED_BY_SAMPLING_TIMEOUT", bounded, "every process_poll_event / signal receive of node.rs waits at most SAMPLING_TIMEOUT")
